@@ -9,7 +9,7 @@
     (machine-range constants, succ/pred only where the open-interval sugar puts them); [Known_C03] = the class of
     the one defect that is not repaired (known/C03.json). *)
 From Coq Require Import ZArith List Bool Permutation.
-From ErgV Require Import Pred.Model Pred.Spec Pred.Proofs Pred.ProofsSuper Pred.ProofsRefine Pred.ProofsJudge Pred.ProofsFuel.
+From ErgV Require Import Pred.Model Pred.Spec Pred.Proofs Pred.ProofsSuper Pred.ProofsRefine Pred.ProofsJudge Pred.ProofsFuel Pred.ProofsPanic.
 Import ListNotations.
 Open Scope Z_scope.
 
@@ -74,6 +74,12 @@ Proof. exact refuted_known. Qed.
 Theorem fuel_enough : forall f (perm : list pred -> list pred), (forall l x, In x (perm l) <-> In x l) ->
   forall bp p bq q, sub_refine f perm bp p bq q <> Fuel.
 Proof. exact sub_refine_fuel. Qed.
+
+(** and within the machine range of the constants ([wf]) it reaches no [Panic] outcome: the only arithmetic on
+    the modelled path, succ / pred of an open-interval bound (u64 + 1, i32 - 1), cannot overflow *)
+Theorem no_panic : forall f (perm : list pred -> list pred), (forall l x, In x (perm l) <-> In x l) ->
+  forall bp p bq q, wf p = true -> wf q = true -> sub_refine f perm bp p bq q <> Panic.
+Proof. exact sub_refine_np. Qed.
 
 (** the oracles the correspondence check runs the model with are permutations *)
 Theorem oracle_family_ok : forall k l, Permutation (perm_k k l) l.
